@@ -34,6 +34,7 @@ def c02(run):
     run.trace("neighbours", Q(run, 1, 4), seed_off=500)
     run.trace("registry-frames", Q(run, 20, 1000), types=["sse.SseBinary", "szse.SzseBinary", "sample.RootPacket"], seed_off=300)
     run.trace("roundtrip-canon", Q(run, 1, 20), seed_off=600, poison=2, small=True)
+    run.trace("encode-reuse", Q(run, 2, 12), seed_off=700)
     run.assumptions += ["the pinned schema was frozen from the pinned commit (the .pdsl sources are not in the repository); byte order is per protocol, taken from the scalar fields"]
     return run.finish(RULE_TRACE)
 
@@ -135,8 +136,8 @@ def c09(run):
     path, st = run.child_trace(run.gen_histories("hostile-prims", 1), "hostile-prims")
     run.judge(path, st, "hostile-prims")
     # refusals by several goroutines at once (unregistered keys of every frame table): the plain build, several processes
-    for k in range(Q(run, 3, 10)):
-        run.parallel("tables", 1, goroutines=16, rounds=1, race_filter="RESULTS-ONLY", prop_clauses="C09", types=FRAMES5, race=False, seed_off=900 + k)
+    for k in range(Q(run, 4, 12)):
+        run.parallel("unknown-storm", 1, goroutines=16, rounds=1, race_filter="RESULTS-ONLY", prop_clauses="C09", race=False, seed_off=900 + k)
     run.assumptions += ["totality of the Go decoders is sampled, not proved", "abort = the child process died under ulimit -v 1.5 GiB; hang = a call did not return after 2 s + 1 us/byte of CPU time of its process (or 30x that in wall-clock time)"]
     return run.finish(RULE_HOSTILE)
 
@@ -206,6 +207,7 @@ def c17(run):
     run.trace("encode-any", Q(run, 1, 20), seed_off=300, poison=2, small=True)
     # encoders of all protocols at once (shared look-ups on the way): a panic or a process abort is this property's, a race is C20's
     run.parallel("encode-any", Q(run, 2, 20), goroutines=16, rounds=Q(run, 3, 6), seed_off=400, race_filter="RESULTS-ONLY", prop_clauses="C17")
+    run.parallel("encode-any", Q(run, 40, 200), goroutines=16, rounds=Q(run, 4, 8), seed_off=500, race_filter="RESULTS-ONLY", prop_clauses="C17", types=FRAMES5, small=True)
     return run.finish(RULE_TRACE + RULE_POISON)
 
 
@@ -227,6 +229,7 @@ def c03(run):
     run.trace("roundtrip-canon", Q(run, 3, 40), types=[t for t in all_types() if t.split(".")[0] in ("bse", "sample")], seed_off=100)
     run.trace("roundtrip-canon", Q(run, 1, 10), seed_off=200)
     run.trace("roundtrip-canon", Q(run, 1, 10), seed_off=300, poison=2, small=True)
+    run.trace("registry-frames", Q(run, 10, 200), types=["sse.SseBinary", "szse.SzseBinary", "sample.RootPacket"], seed_off=400)
     return run.finish(RULE_PRIMMODEL + RULE_PRIM + RULE_TRACE + RULE_POISON)
 
 
@@ -307,6 +310,9 @@ def c20(run):
     run.parallel("encode-reuse", Q(run, 4, 12), goroutines=16, rounds=1, seed_off=300)
     run.parallel("trim-sides", Q(run, 8, 40), goroutines=16, rounds=Q(run, 2, 4), seed_off=400)
     run.parallel("roundtrip-canon", Q(run, 1, 6), goroutines=16, rounds=Q(run, 2, 4), seed_off=500, poison=2, small=True)
+    # first look-ups after a registration: before every round the application registers again, with its pinned type, one key of every
+    # discriminator table (no goroutine is running: a start-up step), then 16 goroutines start at once; only rounds that differ are logged
+    run.parallel("roundtrip-canon", 3, goroutines=16, rounds=Q(run, 800, 5000), seed_off=600, small=True, rereg=True, types=FRAMES5)
     run.assumptions += ["hidden shared state is found by the race detector and by results that differ from the solo run under contention: with high but not certain probability",
                         "discriminator tables and checksum services are only read after start-up (the side goroutines register/remove unrelated names only)"]
     return run.finish("design model: Parallel.tla (NonInterference; deviations SharedScratch and ClearOnSide must fail). B: the drivers' histories (all 170 types, "
